@@ -1755,8 +1755,8 @@ def oracle(case, impl_result, do_shrink=True):
         if do_shrink:
             try:
                 # (the known deviation H3 is met in dozens of histories of every run: its witnesses are cut after the failing call and
-                # shortened with a small budget only)
-                small = shrink(case, k, budget=12 if classify(v) == 'H3' else 80)
+                # shortened with a small budget only; a smaller budget also where every trial runs the probes of the price containers)
+                small = shrink(case, k, budget=12 if classify(v) == 'H3' else 30 if k == 'prices_reuse' else 80)
                 r2 = execute(small, stop_at_first=k)
                 v2 = [x for x in r2['violations'] if x['facts']['kind'] == k]
                 if v2:
